@@ -364,6 +364,67 @@ OnlyDblBuild(x, y) ==
      ELSE MkPos(EmptyCells, side, 0, -1, 0, 1)
 
 (***************************************************************************)
+(* F_ONLYPROMO: every legal move is a promotion by a straight push (the    *)
+(* mover's king has no move; in check or not) - filter.  Coarse: side x    *)
+(* own king square; fine: pawn file x two enemy men (Q R) on any squares.  *)
+(***************************************************************************)
+OnlyPromoCoarse == {<<side, k>> \in {0, 1} \X Sq : TRUE}
+OnlyPromoFine(x) == {<<pf, q, r>> \in (0..7) \X Sq \X Sq : q # r /\ q # x[2] /\ r # x[2]}
+OnlyPromoBuild(x, y) ==
+  LET side == x[1]  opp == Other(side)  k == x[2]
+      src == MkSq(y[1], PromoSrcRank(side))  dst == MkSq(y[1], PromoDstRank(side))
+      bad == MkPos(EmptyCells, side, 0, -1, 0, 1)
+  IN IF Cardinality({k, src, dst, y[2], y[3]}) < 5 THEN bad
+     ELSE LET c == Place(Place(Place(Place(EmptyCells, k, MkCell(side, K)), src, MkCell(side, P)),
+                              y[2], MkCell(opp, Q)), y[3], MkCell(opp, R))
+              pos == Park(c, opp, side, 0, -1, 0, 1)
+          IN IF IsValid(pos) /\ Legal(pos) # {} /\ (\A m \in Legal(pos) : m[1] \in PromoKinds /\ FileOf(m[3]) = FileOf(m[4]))
+             THEN pos ELSE bad
+
+(***************************************************************************)
+(* F_EPEVADE: the mover is IN CHECK from the pawn that has just made its   *)
+(* double step, and may capture it en passant (the capture lands behind    *)
+(* the checker, not on it).  Coarse as F_EP; fine: which of the two        *)
+(* attacked squares the king stands on x one more enemy man anywhere.      *)
+(* F_ONLYEPCHK (filter): with an enemy queen and rook instead, the e.p.    *)
+(* capture is the ONLY legal reply.  F_ONLYEPCHKPRE: the position before   *)
+(* that double step (its SAN must end in "+", not "#").                    *)
+(***************************************************************************)
+EpEvadeBase(x, kside) ==
+  LET side == x[1]  vf == x[2]  opp == Other(side)  r == EpSrcRank(side)
+      victim == MkSq(vf, r)
+      c0 == Place(EmptyCells, victim, MkCell(opp, P))
+      c1 == IF x[3] = 1 /\ vf > 0 THEN Place(c0, MkSq(vf - 1, r), MkCell(side, P)) ELSE c0
+      c2 == IF x[4] = 1 /\ vf < 7 THEN Place(c1, MkSq(vf + 1, r), MkCell(side, P)) ELSE c1
+      ksq == Shift(victim, kside, Fwd(opp))
+  IN IF ksq = -1 \/ c2[ksq] # 0 THEN EmptyCells ELSE Place(c2, ksq, MkCell(side, K))
+EpEvadeCoarse == EpCoarse
+EpEvadeFine(x) == {-1, 1} \X Sq \X {N, B, R, Q, P}
+EpEvadeBuild(x, y) ==
+  LET side == x[1]  opp == Other(side)  victim == MkSq(x[2], EpSrcRank(side))
+      c == EpEvadeBase(x, y[1])  esq == y[2]
+  IN IF c = EmptyCells \/ c[esq] # 0 \/ esq = Shift(victim, 0, Fwd(side)) \/ esq = Shift(victim, 0, 2 * Fwd(side))
+        \/ (y[3] = P /\ RankOf(esq) \in {0, 7})
+     THEN MkPos(EmptyCells, side, 0, -1, 0, 1)
+     ELSE Park(Place(c, esq, MkCell(opp, y[3])), opp, side, 0, victim, 0, 1)
+
+OnlyEpChkCoarse == EpCoarse
+OnlyEpChkFine(x) == {<<ks, q, r>> \in {-1, 1} \X Sq \X Sq : q # r}
+OnlyEpChkBuild(x, y) ==
+  LET side == x[1]  opp == Other(side)  victim == MkSq(x[2], EpSrcRank(side))
+      c == EpEvadeBase(x, y[1])
+      passed == Shift(victim, 0, Fwd(side))  origin == Shift(victim, 0, 2 * Fwd(side))
+      bad == MkPos(EmptyCells, side, 0, -1, 0, 1)
+  IN IF c = EmptyCells \/ c[y[2]] # 0 \/ c[y[3]] # 0 \/ {y[2], y[3]} \cap {passed, origin} # {} THEN bad
+     ELSE LET pos == Park(Place(Place(c, y[2], MkCell(opp, Q)), y[3], MkCell(opp, R)), opp, side, 0, victim, 0, 1)
+          IN IF IsValid(pos) /\ Legal(pos) # {} /\ (\A m \in Legal(pos) : m[1] = KEnpassant) THEN pos ELSE bad
+OnlyEpChkPreBuild(x, y) ==
+  LET pos == OnlyEpChkBuild(x, y)  side == x[1]  opp == Other(side)
+      victim == MkSq(x[2], EpSrcRank(side))  origin == Shift(victim, 0, 2 * Fwd(side))
+  IN IF pos.cells = EmptyCells THEN pos
+     ELSE MkPos(Place(Place(pos.cells, victim, 0), origin, MkCell(opp, P)), opp, 0, -1, 0, 1)
+
+(***************************************************************************)
 (* F_PROMOEP: a promotion is available while an e.p. mark is pending.      *)
 (***************************************************************************)
 PromoEpCoarse == {<<side, f>> \in {0, 1} \X (0..7) : TRUE}
@@ -521,17 +582,17 @@ RawBuild(x, y) ==
                      IF back = -1 \/ c[back] \in {MkCell(0, K), MkCell(1, K)} THEN sk
                      ELSE [sk EXCEPT !.cells = Place(c, back, y[2])]
 
-FamilyNames == {"EP", "EPEDGE", "ONLYEP", "PIN", "CASTLE", "PROMO", "MAT", "CHK", "AMBIG", "RAW", "MINOR", "MULTICHK", "ROOKCAP", "EPCHK", "STALEMIN", "EPX", "EPCHKX", "PINMATE", "DBLCHK", "DBLPIN", "ONLYDBL", "PROMOEP", "CASTLEEP", "BATTERY", "EDGEPAWN"}
+FamilyNames == {"EP", "EPEDGE", "ONLYEP", "PIN", "CASTLE", "PROMO", "MAT", "CHK", "AMBIG", "RAW", "MINOR", "MULTICHK", "ROOKCAP", "EPCHK", "STALEMIN", "EPX", "EPCHKX", "PINMATE", "DBLCHK", "DBLPIN", "ONLYDBL", "PROMOEP", "CASTLEEP", "BATTERY", "EDGEPAWN", "ONLYPROMO", "EPEVADE", "ONLYEPCHK", "ONLYEPCHKPRE"}
 Coarse(f) ==
   CASE f = "EP" -> EpCoarse [] f = "EPEDGE" -> EdgeCoarse [] f = "ONLYEP" -> OnlyEpCoarse
     [] f = "PIN" -> PinCoarse [] f = "CASTLE" -> CastleCoarse [] f = "PROMO" -> PromoCoarse
-    [] f = "MAT" -> MatCoarse [] f = "CHK" -> ChkCoarse [] f = "AMBIG" -> AmbigCoarse [] f = "RAW" -> RawCoarse [] f = "MINOR" -> MinorCoarse [] f = "MULTICHK" -> MultiCoarse [] f = "ROOKCAP" -> RookCapCoarse [] f = "EPCHK" -> EpChkCoarse [] f = "STALEMIN" -> StaleCoarse [] f = "EPX" -> EpCoarse [] f = "EPCHKX" -> EpChkCoarse [] f = "PINMATE" -> PinMateCoarse [] f = "DBLCHK" -> DblCoarse [] f = "DBLPIN" -> DblPinCoarse [] f = "ONLYDBL" -> OnlyDblCoarse [] f = "PROMOEP" -> PromoEpCoarse [] f = "CASTLEEP" -> CastleEpCoarse [] f = "BATTERY" -> BatteryCoarse [] f = "EDGEPAWN" -> EdgePawnCoarse
+    [] f = "MAT" -> MatCoarse [] f = "CHK" -> ChkCoarse [] f = "AMBIG" -> AmbigCoarse [] f = "RAW" -> RawCoarse [] f = "MINOR" -> MinorCoarse [] f = "MULTICHK" -> MultiCoarse [] f = "ROOKCAP" -> RookCapCoarse [] f = "EPCHK" -> EpChkCoarse [] f = "STALEMIN" -> StaleCoarse [] f = "EPX" -> EpCoarse [] f = "EPCHKX" -> EpChkCoarse [] f = "PINMATE" -> PinMateCoarse [] f = "DBLCHK" -> DblCoarse [] f = "DBLPIN" -> DblPinCoarse [] f = "ONLYDBL" -> OnlyDblCoarse [] f = "PROMOEP" -> PromoEpCoarse [] f = "CASTLEEP" -> CastleEpCoarse [] f = "BATTERY" -> BatteryCoarse [] f = "EDGEPAWN" -> EdgePawnCoarse [] f = "ONLYPROMO" -> OnlyPromoCoarse [] f = "EPEVADE" -> EpEvadeCoarse [] f \in {"ONLYEPCHK", "ONLYEPCHKPRE"} -> OnlyEpChkCoarse
 Fine(f, x) ==
   CASE f = "EP" -> EpFine(x) [] f = "EPEDGE" -> EdgeFine(x) [] f = "ONLYEP" -> OnlyEpFine(x)
     [] f = "PIN" -> PinFine(x) [] f = "CASTLE" -> CastleFine(x) [] f = "PROMO" -> PromoFine(x)
-    [] f = "MAT" -> MatFine(x) [] f = "CHK" -> ChkFine(x) [] f = "AMBIG" -> AmbigFine(x) [] f = "RAW" -> RawFine(x) [] f = "MINOR" -> MinorFine(x) [] f = "MULTICHK" -> MultiFine(x) [] f = "ROOKCAP" -> RookCapFine(x) [] f = "EPCHK" -> EpChkFine(x) [] f = "STALEMIN" -> StaleFine(x) [] f = "EPX" -> EpFine(x) [] f = "EPCHKX" -> EpChkFine(x) [] f = "PINMATE" -> PinMateFine(x) [] f = "DBLCHK" -> DblFine(x) [] f = "DBLPIN" -> DblPinFine(x) [] f = "ONLYDBL" -> OnlyDblFine(x) [] f = "PROMOEP" -> PromoEpFine(x) [] f = "CASTLEEP" -> CastleEpFine(x) [] f = "BATTERY" -> BatteryFine(x) [] f = "EDGEPAWN" -> EdgePawnFine(x)
+    [] f = "MAT" -> MatFine(x) [] f = "CHK" -> ChkFine(x) [] f = "AMBIG" -> AmbigFine(x) [] f = "RAW" -> RawFine(x) [] f = "MINOR" -> MinorFine(x) [] f = "MULTICHK" -> MultiFine(x) [] f = "ROOKCAP" -> RookCapFine(x) [] f = "EPCHK" -> EpChkFine(x) [] f = "STALEMIN" -> StaleFine(x) [] f = "EPX" -> EpFine(x) [] f = "EPCHKX" -> EpChkFine(x) [] f = "PINMATE" -> PinMateFine(x) [] f = "DBLCHK" -> DblFine(x) [] f = "DBLPIN" -> DblPinFine(x) [] f = "ONLYDBL" -> OnlyDblFine(x) [] f = "PROMOEP" -> PromoEpFine(x) [] f = "CASTLEEP" -> CastleEpFine(x) [] f = "BATTERY" -> BatteryFine(x) [] f = "EDGEPAWN" -> EdgePawnFine(x) [] f = "ONLYPROMO" -> OnlyPromoFine(x) [] f = "EPEVADE" -> EpEvadeFine(x) [] f \in {"ONLYEPCHK", "ONLYEPCHKPRE"} -> OnlyEpChkFine(x)
 Build(f, x, y) ==
   CASE f = "EP" -> EpBuild(x, y) [] f = "EPEDGE" -> EdgeBuild(x, y) [] f = "ONLYEP" -> OnlyEpBuild(x, y)
     [] f = "PIN" -> PinBuild(x, y) [] f = "CASTLE" -> CastleBuild(x, y) [] f = "PROMO" -> PromoBuild(x, y)
-    [] f = "MAT" -> MatBuild(x, y) [] f = "CHK" -> ChkBuild(x, y) [] f = "AMBIG" -> AmbigBuild(x, y) [] f = "RAW" -> RawBuild(x, y) [] f = "MINOR" -> MinorBuild(x, y) [] f = "MULTICHK" -> MultiBuild(x, y) [] f = "ROOKCAP" -> RookCapBuild(x, y) [] f = "EPCHK" -> EpChkBuild(x, y) [] f = "STALEMIN" -> StaleBuild(x, y) [] f = "EPX" -> EpxBuild(x, y) [] f = "EPCHKX" -> EpChkxBuild(x, y) [] f = "PINMATE" -> PinMateBuild(x, y) [] f = "DBLCHK" -> DblBuild(x, y) [] f = "DBLPIN" -> DblPinBuild(x, y) [] f = "ONLYDBL" -> OnlyDblBuild(x, y) [] f = "PROMOEP" -> PromoEpBuild(x, y) [] f = "CASTLEEP" -> CastleEpBuild(x, y) [] f = "BATTERY" -> BatteryBuild(x, y) [] f = "EDGEPAWN" -> EdgePawnBuild(x, y)
+    [] f = "MAT" -> MatBuild(x, y) [] f = "CHK" -> ChkBuild(x, y) [] f = "AMBIG" -> AmbigBuild(x, y) [] f = "RAW" -> RawBuild(x, y) [] f = "MINOR" -> MinorBuild(x, y) [] f = "MULTICHK" -> MultiBuild(x, y) [] f = "ROOKCAP" -> RookCapBuild(x, y) [] f = "EPCHK" -> EpChkBuild(x, y) [] f = "STALEMIN" -> StaleBuild(x, y) [] f = "EPX" -> EpxBuild(x, y) [] f = "EPCHKX" -> EpChkxBuild(x, y) [] f = "PINMATE" -> PinMateBuild(x, y) [] f = "DBLCHK" -> DblBuild(x, y) [] f = "DBLPIN" -> DblPinBuild(x, y) [] f = "ONLYDBL" -> OnlyDblBuild(x, y) [] f = "PROMOEP" -> PromoEpBuild(x, y) [] f = "CASTLEEP" -> CastleEpBuild(x, y) [] f = "BATTERY" -> BatteryBuild(x, y) [] f = "EDGEPAWN" -> EdgePawnBuild(x, y) [] f = "ONLYPROMO" -> OnlyPromoBuild(x, y) [] f = "EPEVADE" -> EpEvadeBuild(x, y) [] f = "ONLYEPCHK" -> OnlyEpChkBuild(x, y) [] f = "ONLYEPCHKPRE" -> OnlyEpChkPreBuild(x, y)
 =============================================================================
